@@ -445,7 +445,7 @@ theorem Inv.processHeaders {s : H2Stream} {O D : Bytes} (h : Inv s O D) (fs : Fi
     refine h.ctl hc (fun hx => ?_) (fun hr => ?_)
     · simp [hp1] at hx
     · rw [hc.res] at hr; have := h.resPast hr; simp [hph] at this
-  | bodiless s1 r hc hig hrc hph hp1 hb hh =>
+  | bodiless s1 r hc hig hrc hph hp1 hb hh _ =>
     have h1 := h.headBodiless hc r hph hp1 hb
     split
     · exact h1.endStream rfl
